@@ -14,6 +14,8 @@ class Built:
         self.log = []  # M-log events
         self.calls = {}  # callable-default counters by path
         self.decorated = {}  # method key -> what the instance_method decorator returned
+        self.item_schemas = {}  # id(item node) -> the Schema built for it
+        self.keep = []  # (keeps the nodes alive whose id() is a key above)
 
 
 def resolve(obj, mapping):
@@ -64,6 +66,15 @@ def realize(cc, value, node=None):
 
 
 def make_field(cc, node, built, path):
+    field = _make_field(cc, node, built, path)
+    extra = node.get("params", {}).get("validator2")
+    if extra:
+        # a second validator registered on the field afterwards, with the decorator
+        cc.validator(field)(_field_validator(built, path, extra))
+    return field
+
+
+def _make_field(cc, node, built, path):
     fam = node["family"]
     p = dict(node.get("params", {}))
     kw = {}
@@ -96,6 +107,7 @@ def make_field(cc, node, built, path):
         else:
             kw["default"] = d
     p.pop("default_callable", None)
+    p.pop("validator2", None)
     vspec = p.pop("validator", None)
     if vspec:
         kw["validator"] = _field_validator(built, path, vspec)
@@ -145,11 +157,16 @@ def make_field(cc, node, built, path):
         if item["kind"] == "field":
             return cc.ListField(make_field(cc, item, built, path + "[]"), **kw)
         if item["kind"] == "schema":
-            ikw = {}
-            if "env" in item:
-                ikw["env"] = item["env"]
-            sub = cc.Schema(dynamic=item.get("dynamic", False), **ikw)
-            _fill(cc, sub, item, built, path + "[]")
+            # one item node used by two list fields (a list and its twin) is ONE item schema used as the item type of both
+            share = item.get("share") or id(item)
+            sub = built.item_schemas.get(share)
+            if sub is None:
+                ikw = {}
+                if "env" in item:
+                    ikw["env"] = item["env"]
+                sub = built.item_schemas[share] = cc.Schema(dynamic=item.get("dynamic", False), **ikw)
+                built.keep.append(item)
+                _fill(cc, sub, item, built, path + "[]")
             return cc.ListField(sub, **kw)
         return cc.ListField(_make_type(cc, item, built, path + "[]"), **kw)
     if fam == "dict":
@@ -233,7 +250,7 @@ def _schema_validator(built, path, vspec):
 
 def _make_type(cc, node, built, path):
     name = node.get("name") or "T"
-    key = (name, id(node))
+    key = (name, node["schema"].get("share") or id(node))  # (nodes marked with the same "share" token are ONE type)
     if key in built.types:
         return built.types[key]
     kw = {}
